@@ -815,3 +815,56 @@ Proof.
   - now apply model_satisfies_checker_at.
   - intros o ob Hin. apply Hnd. eapply in_combine_l; eauto.
 Qed.
+
+(* ---------- single-producer / single-consumer separation and frame facts ---------- *)
+
+(* Reader-side calls move only the read pointer: the write pointer, the capacity and every byte of the
+   shared memory are left as they were (for ANY state, reachable or not). *)
+Definition reader_op (o : op) : Prop := match o with Write _ => False | _ => True end.
+
+Lemma read_frame s n :
+  wp (fst (read s n)) = wp s /\ cap (fst (read s n)) = cap s /\ mem (fst (read s n)) = mem s.
+Proof. unfold read. cbv zeta. destruct (_ <=? 0); cbn; auto. Qed.
+
+Lemma reader_step_frame s o : reader_op o ->
+  wp (fst (step s o)) = wp s /\ cap (fst (step s o)) = cap s /\ mem (fst (step s o)) = mem s.
+Proof.
+  destruct o as [d|n|k| |k| ]; cbn [reader_op step]; intros H; try contradiction.
+  - pose proof (read_frame s n) as F. destruct (read s n); exact F.
+  - unfold read_multiple_of. destruct (_ || _); cbn; auto.
+    pose proof (read_frame s (k * (bytes_readable s / k))) as F.
+    destruct (read s _); exact F.
+  - unfold read_all. pose proof (read_frame s (cap s)) as F. destruct (read s _); exact F.
+  - unfold discard_stride. destruct (k <=? 0); cbn; auto. destruct (_ >? rp s); cbn; auto.
+  - unfold discard_stride. destruct (1 <=? 0); cbn; auto. destruct (_ >? rp s); cbn; auto.
+Qed.
+
+Theorem reader_never_touches_writer_side ops : forall s,
+  Forall reader_op ops ->
+  wp (fst (run s ops)) = wp s /\ cap (fst (run s ops)) = cap s /\ mem (fst (run s ops)) = mem s.
+Proof.
+  induction ops as [|o ops IH]; intros s HF; cbn [run fst]; auto.
+  inversion HF as [|? ? Ho Hrest]; subst.
+  unfold observe. pose proof (reader_step_frame s o Ho) as (Fw & Fc & Fm).
+  destruct (step s o) as [s1 r]; cbn [fst] in *.
+  specialize (IH s1 Hrest). destruct (run s1 ops) as [s2 bs]; cbn [fst] in *.
+  destruct IH as (Iw & Ic & Im). repeat split; congruence.
+Qed.
+
+(* The writer moves only the write pointer (and memory): read pointer and capacity are untouched,
+   for ANY state. *)
+Theorem writer_never_touches_reader_side s d :
+  rp (fst (write s d)) = rp s /\ cap (fst (write s d)) = cap s.
+Proof. unfold write; cbn; auto. Qed.
+
+(* A write never alters a cell that still holds an unread byte (loss-freedom at the memory level). *)
+Theorem write_preserves_unread s A d : GInv s A ->
+  forall i, rp s <= i < wp s -> mem (fst (write s d)) (i mod cap s) = mem s (i mod cap s).
+Proof.
+  intros G i Hi. pose proof (write_spec s A d G) as H. cbv zeta in H.
+  destruct H as (_ & Hr & Hw & Hc & G').
+  destruct G as [_ _ Hroom HwA Hm]. destruct G' as [_ _ _ _ Hm'].
+  rewrite Hc, Hr, Hw in Hm'. pose proof (zlen_nonneg d) as Hd.
+  rewrite Hm' by lia. rewrite Hm by lia.
+  apply znth_app_l. lia.
+Qed.
